@@ -71,6 +71,199 @@ func (r *c12Reader) Read(p []byte) (int, error) {
 	return n, nil
 }
 
+// ---- allocation guard for the parallel sweeps ----
+//
+// The unpatched decoder allocates the declared length of a byte string before reading it, so an input
+// that declares 4 GiB costs 4 GiB.  Sixteen workers doing that concurrently would take the machine
+// down, so such inputs are not executed in the parallel sweeps; the allocation clause is decided on
+// crafted inputs in a sequential phase instead.  c12Dangerous predicts, by replaying the read pattern
+// of pkg/scale's decoder (sizes of the Read calls, zero-filled short reads) on the same reader, whether
+// a byte-string length above 64 KiB (or an element count above 64 Ki of zero-sized elements) would be
+// reached.  It is not an oracle: it only selects inputs to skip, and skipped inputs are counted.
+const c12DangerLen = 1 << 16
+
+type c12Shadow struct {
+	rd     *c12Reader
+	danger bool
+}
+
+func (s *c12Shadow) readByte() (byte, bool) {
+	b := make([]byte, 1)
+	_, err := s.rd.Read(b)
+	return b[0], err == nil
+}
+
+func (s *c12Shadow) read(n int) ([]byte, bool) {
+	b := make([]byte, n)
+	_, err := s.rd.Read(b)
+	return b, err == nil
+}
+
+func c12LE(b []byte) uint64 {
+	var v uint64
+	for i := len(b) - 1; i >= 0; i-- {
+		v = v<<8 | uint64(b[i])
+	}
+	return v
+}
+
+func (s *c12Shadow) compactUint() (uint64, bool) {
+	p, ok := s.readByte()
+	if !ok {
+		return 0, false
+	}
+	switch p & 3 {
+	case 0:
+		return uint64(p >> 2), true
+	case 1:
+		b, ok := s.readByte()
+		if !ok {
+			return 0, false
+		}
+		v := (uint64(p) | uint64(b)<<8) >> 2
+		return v, v > 63
+	case 2:
+		b, ok := s.read(3)
+		if !ok {
+			return 0, false
+		}
+		v := (uint64(p) | c12LE(b)<<8) >> 2
+		return v, v > 1<<14-1
+	}
+	l := int(p>>2) + 4
+	b, ok := s.read(l)
+	if !ok {
+		return 0, false
+	}
+	if l > 8 {
+		return 0, false
+	}
+	return c12LE(b), true
+}
+
+func (s *c12Shadow) walk(t *ref.C11Type) bool {
+	if s.danger {
+		return false
+	}
+	switch t.Kind {
+	case ref.C11U8, ref.C11I8:
+		_, ok := s.readByte()
+		return ok
+	case ref.C11U16, ref.C11I16:
+		_, ok := s.read(2)
+		return ok
+	case ref.C11U32, ref.C11I32:
+		_, ok := s.read(4)
+		return ok
+	case ref.C11U64, ref.C11I64:
+		_, ok := s.read(8)
+		return ok
+	case ref.C11U128:
+		b := make([]byte, 16)
+		_, err := io.ReadFull(s.rd, b)
+		return err == nil
+	case ref.C11Compact:
+		_, ok := s.compactUint()
+		return ok
+	case ref.C11CompactBig:
+		p, ok := s.readByte()
+		if !ok {
+			return false
+		}
+		switch p & 3 {
+		case 0:
+			return true
+		case 1:
+			_, ok = s.readByte()
+		case 2:
+			_, ok = s.read(3)
+		default:
+			_, ok = s.read(int(p>>2) + 4)
+		}
+		return ok
+	case ref.C11Bool:
+		b, ok := s.readByte()
+		return ok && b <= 1
+	case ref.C11Bytes, ref.C11Str:
+		n, ok := s.compactUint()
+		if !ok {
+			return false
+		}
+		if n > c12DangerLen {
+			s.danger = true
+			return false
+		}
+		if n > 0 {
+			_, ok = s.read(int(n))
+		}
+		return ok
+	case ref.C11Unit:
+		return true
+	case ref.C11Option:
+		b, ok := s.readByte()
+		if !ok || b > 1 {
+			return false
+		}
+		return b == 0 || s.walk(t.Elem)
+	case ref.C11Vec, ref.C11Map:
+		n, ok := s.compactUint()
+		if !ok {
+			return false
+		}
+		if n > c12DangerLen && ref.C11MinSize(t.Elem) == 0 && (t.Kind == ref.C11Vec || ref.C11MinSize(t.Key) == 0) {
+			s.danger = true
+			return false
+		}
+		for i := uint64(0); i < n; i++ {
+			if t.Kind == ref.C11Map && !s.walk(t.Key) {
+				return false
+			}
+			if !s.walk(t.Elem) {
+				return false
+			}
+		}
+		return true
+	case ref.C11Array:
+		for i := 0; i < t.N; i++ {
+			if !s.walk(t.Elem) {
+				return false
+			}
+		}
+		return true
+	case ref.C11Tuple:
+		for _, f := range t.Fields {
+			if !s.walk(f) {
+				return false
+			}
+		}
+		return true
+	case ref.C11Result:
+		b, ok := s.readByte()
+		if !ok || b > 1 {
+			return false
+		}
+		return s.walk(t.Fields[b])
+	case ref.C11Enum:
+		b, ok := s.readByte()
+		if !ok {
+			return false
+		}
+		for i, tag := range t.Tags {
+			if tag == b {
+				return s.walk(t.Fields[i])
+			}
+		}
+		return false
+	}
+	return false
+}
+
+func c12Dangerous(t *ref.C11Type, input []byte, mode, k int) bool {
+	s := &c12Shadow{rd: &c12Reader{data: input, mode: mode, k: k}}
+	s.walk(t)
+	return s.danger
+}
+
 // ---- signature helpers ----
 
 func c12LeafGroup(leaf string) string {
@@ -199,6 +392,11 @@ func c12WalkVecMaps(t *ref.C11Type, v *ref.C11Val, f func(mt *ref.C11Type, entri
 // c12Check runs the real decoder on one input through one reader and applies the oracle.
 // It returns true when the decoder accepted the input.
 func c12Check(r *verifmc.Report, cnt *c11Counts, t *ref.C11Type, input []byte, mode, k int, class string) bool {
+	if c12Dangerous(t, input, mode, k) {
+		cnt.add["skipped_declares_over_64KiB"]++
+		cnt.outcome[class+":not-executed-declares-over-64KiB (allocation phase decides the clause)"]++
+		return false
+	}
 	cnt.add["evaluations"]++
 	dest := c11Dest(t)
 	rd := &c12Reader{data: input, mode: mode, k: k}
